@@ -204,6 +204,21 @@ HOSTILE = [
     ("from {{m}} import {{n}}", "from a import b\nfrom a import b as c\nfrom a import b, c\nfrom . import d\n"),
     ("{{x}} if {{c}} else {{x}}", "y = a if b else a\nz = a if b else c\n"),
     ("lambda {{a}}: {{a}}", "f = lambda q: q\ng = lambda q: r\n"),
+    # a wildcard where the code has no child at all: no syntax tree can stand there
+    ("x: int = {{v}}", "x: int\nx: int = 1\n"),
+    ("def f():\n    return {{v}}", "def f():\n    return\n"),
+    ("return {{v}}", "def f():\n    return\ndef g():\n    return 1\n"),
+    ("raise {{e}} from {{c}}", "raise E\nraise E from F\n"),
+    ("raise {{e}}", "try:\n    pass\nexcept E:\n    raise\nraise F\n"),
+    ("a[{{x}}:]", "a[:]\na[1:]\n"),
+    ("a[{{x}}:{{y}}:{{z}}]", "a[1:2]\na[1:2:3]\na[::]\n"),
+    ("def f() -> {{r}}:\n    pass", "def f():\n    pass\n"),
+    ("def f(a: {{t}}):\n    pass", "def f(a):\n    pass\n"),
+    ("assert {{c}}, {{m}}", "assert a\nassert a, b\n"),
+    ("with {{c}} as {{n}}:\n    pass", "with a:\n    pass\nwith a as b:\n    pass\n"),
+    ("yield {{v}}", "def g():\n    yield\n    yield 1\n"),
+    ("f(**{{k}})", "f(**a)\nf(b=1)\n"),
+    ("{**{{d}}}", "x = {**a}\ny = {b: 1}\n"),
 ]
 
 
